@@ -4,7 +4,13 @@ LEVEL = "proof"
 FUNCTIONS = ['uxarray.core.aggregation._apply_node_to_edge_aggregation_numpy@dims=n_node',
     'uxarray.core.aggregation._apply_node_to_edge_aggregation_numpy@dims=time,n_node',
     'uxarray.core.aggregation._apply_node_to_face_aggregation_numpy@dims=n_node',
-    'uxarray.core.aggregation._apply_node_to_face_aggregation_numpy@dims=time,n_node']
+    'uxarray.core.aggregation._apply_node_to_face_aggregation_numpy@dims=time,n_node',
+    'uxarray.core.aggregation._node_to_face_aggregation@dims=n_node',
+    'uxarray.core.aggregation._node_to_face_aggregation@dims=time,n_node',
+    'uxarray.core.aggregation._node_to_face_aggregation@dims=n_face',
+    'uxarray.core.aggregation._node_to_edge_aggregation@dims=n_node',
+    'uxarray.core.aggregation._node_to_edge_aggregation@dims=time,n_node',
+    'uxarray.core.aggregation._node_to_edge_aggregation@dims=n_face']
 STANDINS = ["aggregations"]
 ASSUMPTIONS = []
 EXPLANATION = "partition / gather contracts + bounded stand-in over all ten reductions"
